@@ -173,3 +173,377 @@ Proof.
   change (2 ^ 53)%Z with (radix2 ^ 53)%Z.
   apply Zpower_le. exact D.
 Qed.
+
+(** ** C fmod, exact. *)
+Lemma cond_Zopp_IZR : forall s z, IZR (cond_Zopp s z) = (if s then - IZR z else IZR z)%R.
+Proof. intros [|] z; simpl; [apply opp_IZR|reflexivity]. Qed.
+
+Lemma ffmod_spec : forall x y : f64,
+  ffinite x = true -> ffinite y = true -> B2R y <> 0 ->
+  exists k : Z,
+    B2R (ffmod x y) = B2R x - IZR k * B2R y /\
+    Rabs (B2R (ffmod x y)) < Rabs (B2R y) /\
+    Rabs (B2R (ffmod x y)) <= Rabs (B2R x) /\
+    ffinite (ffmod x y) = true /\
+    fsign (ffmod x y) = fsign x.
+Proof.
+  intros [sx|sx| |sx mx ex Hx] [sy|sy| |sy my ey Hy] Fx Fy Hy0; try discriminate;
+    try (simpl in Hy0; congruence).
+  - exists 0%Z. simpl. rewrite Rabs_R0. repeat split; try lra.
+    apply Rabs_pos_lt. exact Hy0.
+  - destruct (bounded_inv _ _ Hx) as [Bmx Bex]. destruct (bounded_inv _ _ Hy) as [Bmy Bey].
+    unfold ffmod.
+    set (e := Z.min ex ey).
+    set (X := (Z.pos mx * 2 ^ (ex - e))%Z).
+    set (Y := (Z.pos my * 2 ^ (ey - e))%Z).
+    set (r := Z.rem X Y).
+    assert (He1 : (e <= ex)%Z) by (unfold e; lia).
+    assert (He2 : (e <= ey)%Z) by (unfold e; lia).
+    assert (HX : (0 < X)%Z) by (unfold X; apply Z.mul_pos_pos; [lia|apply Z.pow_pos_nonneg; lia]).
+    assert (HY : (0 < Y)%Z) by (unfold Y; apply Z.mul_pos_pos; [lia|apply Z.pow_pos_nonneg; lia]).
+    assert (Hr : (0 <= r < Y)%Z) by (apply Z.rem_bound_pos; lia).
+    assert (HrX : (r <= X)%Z) by (apply Z.rem_le; lia).
+    assert (Hr53 : (r < 2 ^ 53)%Z).
+    { destruct (Z_le_dec ex ey) as [L|L].
+      - assert (e = ex) by (unfold e; lia).
+        assert (X = Z.pos mx) by (unfold X; replace (ex - e)%Z with 0%Z by lia; simpl; lia). lia.
+      - assert (e = ey) by (unfold e; lia).
+        assert (Y = Z.pos my) by (unfold Y; replace (ey - e)%Z with 0%Z by lia; simpl; lia). lia. }
+    assert (Hxe : B2R (B754_finite sx mx ex Hx) = F2R (Float radix2 (cond_Zopp sx X) e)).
+    { simpl. rewrite (F2R_change_exp radix2 e _ ex He1).
+      apply (f_equal (fun z => F2R (Float radix2 z e))).
+      destruct sx; unfold cond_Zopp, X; change (radix_val radix2) with 2%Z; ring. }
+    assert (Hye : B2R (B754_finite sy my ey Hy) = F2R (Float radix2 (cond_Zopp sy Y) e)).
+    { simpl. rewrite (F2R_change_exp radix2 e _ ey He2).
+      apply (f_equal (fun z => F2R (Float radix2 z e))).
+      destruct sy; unfold cond_Zopp, Y; change (radix_val radix2) with 2%Z; ring. }
+    set (m := if sx then (- r)%Z else r).
+    assert (Hm : m = cond_Zopp sx r) by (unfold m; destruct sx; reflexivity).
+    assert (Hfmt : fmt64 (F2R (Float radix2 m e))).
+    { apply generic_format_FLT. exists (Float radix2 m e); simpl.
+      - reflexivity.
+      - rewrite Hm, abs_cond_Zopp. rewrite Z.abs_eq; lia.
+      - unfold e; lia. }
+    assert (Habs : Rabs (F2R (Float radix2 m e)) = F2R (Float radix2 r e)).
+    { rewrite Hm. rewrite <- F2R_Zabs. simpl. rewrite abs_cond_Zopp, Z.abs_eq by lia. reflexivity. }
+    assert (HabsX : Rabs (B2R (B754_finite sx mx ex Hx)) = F2R (Float radix2 X e)).
+    { rewrite Hxe, <- F2R_Zabs. simpl. rewrite abs_cond_Zopp, Z.abs_eq by lia. reflexivity. }
+    assert (HabsY : Rabs (B2R (B754_finite sy my ey Hy)) = F2R (Float radix2 Y e)).
+    { rewrite Hye, <- F2R_Zabs. simpl. rewrite abs_cond_Zopp, Z.abs_eq by lia. reflexivity. }
+    generalize (binary_normalize_correct 53 1024 Hprec53 Hmax1024 mode_NE m e sx).
+    simpl round_mode. fold fexp64.
+    replace (SpecFloat.fexp 53 1024) with fexp64 by reflexivity.
+    cbv zeta. rewrite (RN_id _ Hfmt).
+    rewrite Rlt_bool_true.
+    2:{ rewrite Habs. apply Rle_lt_trans with (F2R (Float radix2 X e)).
+        - apply F2R_le. exact HrX.
+        - rewrite <- HabsX. apply B2R_lt_emax. }
+    intros (V & Fin & Sg).
+    exists (cond_Zopp sx (cond_Zopp sy (Z.quot X Y))).
+    split; [|split; [|split; [|split]]].
+    + rewrite V, Hxe, Hye, Hm. unfold F2R; simpl.
+      rewrite !cond_Zopp_IZR.
+      assert (EQ : IZR X = IZR Y * IZR (Z.quot X Y) + IZR r).
+      { rewrite <- mult_IZR, <- plus_IZR. f_equal. unfold r. apply Z.quot_rem'. }
+      destruct sx, sy; rewrite EQ; ring.
+    + rewrite V, Habs, HabsY. apply F2R_lt. lia.
+    + rewrite V, Habs, HabsX. apply F2R_le. exact HrX.
+    + exact Fin.
+    + unfold fsign. rewrite Sg. simpl.
+      destruct (Rcompare_spec (F2R (Float radix2 m e)) 0) as [C|C|C].
+      * destruct sx; [reflexivity|]. exfalso.
+        assert (0 <= F2R (Float radix2 m e)) by (apply F2R_ge_0; simpl; unfold m; lia). lra.
+      * reflexivity.
+      * destruct sx; [|reflexivity]. exfalso.
+        assert (F2R (Float radix2 m e) <= 0) by (apply F2R_le_0; simpl; unfold m; lia). lra.
+Qed.
+
+(** ** Sign, zero test, NaN test of finite floats. *)
+Lemma fsign_nonneg : forall x : f64, ffinite x = true -> fsign x = false -> 0 <= B2R x.
+Proof.
+  intros [s|s| |s m e H] F S; try discriminate; simpl in *; try lra.
+  subst s. apply F2R_ge_0. simpl. lia.
+Qed.
+
+Lemma fsign_nonpos : forall x : f64, ffinite x = true -> fsign x = true -> B2R x <= 0.
+Proof.
+  intros [s|s| |s m e H] F S; try discriminate; simpl in *; try lra.
+  subst s. apply F2R_le_0. simpl. lia.
+Qed.
+
+Lemma fsign_of_pos : forall x : f64, ffinite x = true -> 0 < B2R x -> fsign x = false.
+Proof.
+  intros x F P. destruct (fsign x) eqn:S; [|reflexivity].
+  generalize (fsign_nonpos x F S). lra.
+Qed.
+
+Lemma fsign_of_neg : forall x : f64, ffinite x = true -> B2R x < 0 -> fsign x = true.
+Proof.
+  intros x F P. destruct (fsign x) eqn:S; [reflexivity|].
+  generalize (fsign_nonneg x F S). lra.
+Qed.
+
+Lemma fiszero_spec : forall x : f64, ffinite x = true -> (fiszero x = true <-> B2R x = 0).
+Proof.
+  intros [s|s| |s m e H] F; try discriminate; simpl; split; intros; try reflexivity; try discriminate.
+  exfalso. destruct s.
+  - assert (F2R (Float radix2 (cond_Zopp true (Z.pos m)) e) < 0) by (apply F2R_lt_0; simpl; lia). lra.
+  - assert (0 < F2R (Float radix2 (cond_Zopp false (Z.pos m)) e)) by (apply F2R_gt_0; simpl; lia). lra.
+Qed.
+
+Lemma fiszero_false : forall x : f64, ffinite x = true -> B2R x <> 0 -> fiszero x = false.
+Proof.
+  intros x F H. destruct (fiszero x) eqn:E; [|reflexivity].
+  apply fiszero_spec in E; [contradiction|assumption].
+Qed.
+
+Lemma fiszero_true : forall x : f64, ffinite x = true -> B2R x = 0 -> fiszero x = true.
+Proof. intros x F H. apply fiszero_spec; assumption. Qed.
+
+Lemma fisnan_finite : forall x : f64, ffinite x = true -> fisnan x = false.
+Proof. intros [s|s| |s m e H] F; try discriminate; reflexivity. Qed.
+
+Lemma fisinf_finite : forall x : f64, ffinite x = true -> fisinf x = false.
+Proof. intros [s|s| |s m e H] F; try discriminate; reflexivity. Qed.
+
+(** Two finite floats with the same real value and the same sign are the same float. *)
+Lemma f64_eq : forall x y : f64,
+  ffinite x = true -> ffinite y = true -> B2R x = B2R y -> fsign x = fsign y -> x = y.
+Proof. intros; apply B2R_Bsign_inj; assumption. Qed.
+
+Lemma nonneg_zero_is_fzero : forall x : f64,
+  ffinite x = true -> fsign x = false -> B2R x = 0 -> x = fzero.
+Proof. intros x F S Z. apply f64_eq; try assumption; reflexivity. Qed.
+
+(** Sign of a sum with positive exact value. *)
+Lemma fadd_sign_pos : forall x y : f64,
+  ffinite x = true -> ffinite y = true ->
+  Rabs (RN (B2R x + B2R y)) < bpow radix2 1024 ->
+  0 < B2R x + B2R y -> fsign (fadd x y) = false.
+Proof.
+  intros x y Fx Fy H P.
+  generalize (Bplus_correct 53 1024 _ _ mode_NE x y Fx Fy).
+  simpl round_mode. rewrite Rlt_bool_true by exact H.
+  intros (_ & _ & S). unfold fsign, fadd. rewrite S.
+  rewrite Rcompare_Gt by exact P. reflexivity.
+Qed.
+
+(** [fmod] of an argument already smaller in magnitude than the modulus is the identity. *)
+Lemma ffmod_small : forall x y : f64,
+  ffinite x = true -> ffinite y = true -> Rabs (B2R x) < Rabs (B2R y) -> ffmod x y = x.
+Proof.
+  intros x y Fx Fy H.
+  assert (Hy0 : B2R y <> 0) by (intros E; rewrite E, Rabs_R0 in H; generalize (Rabs_pos (B2R x)); lra).
+  destruct (ffmod_spec x y Fx Fy Hy0) as (k & V & B1 & B2 & Fin & Sg).
+  apply f64_eq; try assumption.
+  assert (K : k = 0%Z).
+  { destruct (Z.eq_dec k 0) as [E|NE]; [exact E|exfalso].
+    assert (1 <= Rabs (IZR k)).
+    { rewrite <- abs_IZR. apply IZR_le. lia. }
+    assert (Rabs (B2R y) <= Rabs (IZR k * B2R y)).
+    { rewrite Rabs_mult. generalize (Rabs_pos (B2R y)). nra. }
+    assert (E : IZR k * B2R y = B2R x - B2R (ffmod x y)) by lra.
+    rewrite E in H1.
+    destruct (fsign x) eqn:Sx.
+    - generalize (fsign_nonpos x Fx Sx) (fsign_nonpos _ Fin Sg). intros.
+      rewrite (Rabs_left1 (B2R x)) in * by assumption.
+      rewrite (Rabs_left1 (B2R (ffmod x y))) in * by assumption.
+      revert H1. unfold Rabs at 2. destruct Rcase_abs; lra.
+    - generalize (fsign_nonneg x Fx Sx) (fsign_nonneg _ Fin Sg). intros.
+      rewrite (Rabs_pos_eq (B2R x)) in * by assumption.
+      rewrite (Rabs_pos_eq (B2R (ffmod x y))) in * by assumption.
+      revert H1. unfold Rabs at 2. destruct Rcase_abs; lra. }
+  rewrite V, K. simpl. ring.
+Qed.
+
+(** Rounding stays between two representable bounds. *)
+Lemma RN_between : forall (a b : f64) r, B2R a <= r <= B2R b -> B2R a <= RN r <= B2R b.
+Proof.
+  intros a b r [H1 H2]. split.
+  - rewrite <- (RN_B2R a). apply RN_le; assumption.
+  - rewrite <- (RN_B2R b). apply RN_le; assumption.
+Qed.
+
+Lemma RN_no_overflow_le : forall (b : f64) r, Rabs r <= Rabs (B2R b) -> Rabs (RN r) < bpow radix2 1024.
+Proof.
+  intros b r H. apply Rle_lt_trans with (Rabs (B2R b)); [|apply B2R_lt_emax].
+  apply abs_round_le_generic; auto with typeclass_instances.
+  apply generic_format_abs, fmt_B2R.
+Qed.
+
+(** ** Python's float [%] for a positive finite modulus. *)
+Lemma py_mod_pos : forall x y : f64,
+  ffinite x = true -> ffinite y = true -> 0 < B2R y ->
+  exists (m : f64) (k : Z),
+    py_mod x y = Some m /\ ffinite m = true /\ fsign m = false /\
+    0 <= B2R x - IZR k * B2R y < B2R y /\
+    B2R m = RN (B2R x - IZR k * B2R y) /\
+    (0 <= B2R x -> fmt64 (B2R x - IZR k * B2R y)).
+Proof.
+  intros x y Fx Fy Py.
+  assert (Hy0 : B2R y <> 0) by lra.
+  assert (Sy : fsign y = false) by (apply fsign_of_pos; assumption).
+  destruct (ffmod_spec x y Fx Fy Hy0) as (k & V & B1 & B2 & Fin & Sg).
+  rewrite (Rabs_pos_eq (B2R y)) in B1 by lra.
+  unfold py_mod. rewrite (fiszero_false y Fy Hy0).
+  assert (Fzf : ffinite fzero = true) by reflexivity.
+  assert (LY : flt y fzero = false).
+  { rewrite flt_spec by assumption. apply Rlt_bool_false. simpl. lra. }
+  rewrite LY. rewrite (fisnan_finite _ Fin).
+  destruct (Rtotal_order (B2R (ffmod x y)) 0) as [Neg|[Zer|Pos]].
+  - (* negative remainder: one rounded addition of the modulus *)
+    rewrite (fiszero_false _ Fin) by lra. simpl negb. simpl andb.
+    assert (LM : flt (ffmod x y) fzero = true).
+    { rewrite flt_spec by assumption. apply Rlt_bool_true. simpl. lra. }
+    rewrite LM. simpl Bool.eqb. cbv iota.
+    rewrite (Rabs_left (B2R (ffmod x y))) in B1 by lra.
+    assert (NO : Rabs (RN (B2R (ffmod x y) + B2R y)) < bpow radix2 1024).
+    { apply (RN_no_overflow_le y). rewrite !Rabs_pos_eq by lra. lra. }
+    destruct (fadd_spec _ _ Fin Fy NO) as [VA FA].
+    exists (fadd (ffmod x y) y), (k - 1)%Z.
+    assert (E : B2R x - IZR (k - 1) * B2R y = B2R (ffmod x y) + B2R y).
+    { rewrite minus_IZR, V. ring. }
+    rewrite E.
+    split; [reflexivity|]. split; [exact FA|].
+    split; [apply fadd_sign_pos; try assumption; lra|].
+    split; [lra|]. split; [exact VA|].
+    intros Px. exfalso.
+    assert (fsign x = true) by (rewrite <- Sg; apply fsign_of_neg; assumption).
+    generalize (fsign_nonpos x Fx H). intros.
+    assert (B2R x = 0) by lra.
+    rewrite H1, Rabs_R0 in B2. generalize (Rabs_pos (B2R (ffmod x y))). intros.
+    assert (Rabs (B2R (ffmod x y)) = 0) by lra.
+    apply Rabs_eq_R0 in H3. lra.
+  - (* zero remainder *)
+    rewrite (fiszero_true _ Fin Zer). simpl negb. simpl andb. cbv iota.
+    exists fzero, k.
+    assert (E : B2R x - IZR k * B2R y = 0) by lra.
+    rewrite E.
+    split.
+    { f_equal. unfold fcopysign. rewrite Sy. reflexivity. }
+    split; [reflexivity|]. split; [reflexivity|]. split; [lra|].
+    split; [simpl; symmetry; apply RN_0|].
+    intros _. apply generic_format_0.
+  - (* positive remainder *)
+    rewrite (fiszero_false _ Fin) by lra. simpl negb. simpl andb.
+    assert (LM : flt (ffmod x y) fzero = false).
+    { rewrite flt_spec by assumption. apply Rlt_bool_false. simpl. lra. }
+    rewrite LM. simpl Bool.eqb. cbv iota.
+    rewrite (Rabs_pos_eq (B2R (ffmod x y))) in B1 by lra.
+    exists (ffmod x y), k.
+    rewrite <- V.
+    split; [reflexivity|]. split; [exact Fin|].
+    split; [apply fsign_of_pos; assumption|].
+    split; [lra|]. split; [symmetry; apply RN_B2R|].
+    intros _. apply fmt_B2R.
+Qed.
+
+(** ** Constants given by bit patterns. *)
+Definition fhalf : f64 := of_bits 0x3FE0000000000000.
+Lemma fhalf_SF : B2SF fhalf = SpecFloat.S754_finite false 4503599627370496 (-53).
+Proof. vm_compute. reflexivity. Qed.
+Lemma fhalf_R : B2R fhalf = / 2.
+Proof. rewrite <- SF2R_B2SF, fhalf_SF. unfold SF2R, F2R. simpl. lra. Qed.
+Lemma fhalf_finite : ffinite fhalf = true.
+Proof. vm_compute. reflexivity. Qed.
+
+(** ** floor *)
+Lemma ffloor_spec : forall x : f64,
+  B2R (ffloor x) = IZR (Zfloor (B2R x)) /\ ffinite (ffloor x) = ffinite x.
+Proof.
+  intros x. destruct (Bnearbyint_correct 53 1024 Hmax1024 mode_DN x) as (A & B & _).
+  split; [|exact B]. unfold ffloor. rewrite A. simpl round_mode. apply round_FIX_IZR.
+Qed.
+
+(** The floor of a binary64 number is a binary64 number. *)
+Lemma fmt_floor : forall x : f64, fmt64 (IZR (Zfloor (B2R x))).
+Proof. intros x. rewrite <- (proj1 (ffloor_spec x)). apply fmt_B2R. Qed.
+
+Lemma Zfloor_bounds : forall r, IZR (Zfloor r) <= r < IZR (Zfloor r) + 1.
+Proof. intros r. split; [apply Zfloor_lb|apply Zfloor_ub]. Qed.
+
+(** ** Python's [divmod(x, 1.0)] for finite non-negative [x]. *)
+Lemma py_divmod1_nonneg : forall x : f64,
+  ffinite x = true -> 0 <= B2R x ->
+  ffinite (fst (py_divmod1 x)) = true /\ ffinite (snd (py_divmod1 x)) = true /\
+  B2R (fst (py_divmod1 x)) = IZR (Zfloor (B2R x)) /\
+  B2R (snd (py_divmod1 x)) = B2R x - IZR (Zfloor (B2R x)).
+Proof.
+  intros x Fx Px.
+  assert (H1 : B2R fone <> 0) by (rewrite fone_R; lra).
+  destruct (ffmod_spec x fone Fx fone_finite H1) as (k & V & B1 & B2 & Fin & Sg).
+  rewrite fone_R in V, B1. rewrite Rabs_R1 in B1. rewrite Rmult_1_r in V.
+  set (m0 := ffmod x fone) in *.
+  assert (P0 : 0 <= B2R m0).
+  { destruct (fsign x) eqn:Sx.
+    - generalize (fsign_nonpos x Fx Sx). intros.
+      assert (E : B2R x = 0) by lra. rewrite E, Rabs_R0 in B2.
+      generalize (Rabs_pos (B2R m0)). intros.
+      assert (Rabs (B2R m0) = 0) by lra. apply Rabs_eq_R0 in H2. lra.
+    - apply fsign_nonneg; [exact Fin|exact Sg]. }
+  rewrite Rabs_pos_eq in B1 by exact P0.
+  assert (K : Zfloor (B2R x) = k).
+  { apply Zfloor_imp. rewrite plus_IZR. simpl. lra. }
+  rewrite K.
+  (* x - m0 = k exactly *)
+  assert (Fk : fmt64 (IZR k)) by (rewrite <- K; apply fmt_floor).
+  assert (Ek : B2R x - B2R m0 = IZR k) by lra.
+  assert (NOk : Rabs (RN (IZR k)) < bpow radix2 1024).
+  { rewrite RN_id by exact Fk. apply Rle_lt_trans with (Rabs (B2R x)); [|apply B2R_lt_emax].
+    rewrite Rabs_pos_eq with (x := B2R x) by exact Px.
+    assert (IZR (-1) < IZR k) by (simpl; lra). apply lt_IZR in H.
+    assert (0 <= IZR k) by (apply IZR_le; lia). rewrite Rabs_pos_eq by assumption. lra. }
+  destruct (fsub_spec x m0 Fx Fin) as [Vs Fs]; [rewrite Ek; exact NOk|].
+  rewrite Ek, RN_id in Vs by exact Fk.
+  set (s := fsub x m0) in *.
+  destruct (fdiv_spec s fone Fs H1) as [Vd Fd].
+  { rewrite Vs, fone_R. unfold Rdiv. rewrite Rinv_1, Rmult_1_r. exact NOk. }
+  rewrite Vs, fone_R in Vd. unfold Rdiv in Vd. rewrite Rinv_1, Rmult_1_r, RN_id in Vd by exact Fk.
+  set (d0 := fdiv s fone) in *.
+  (* unfold the definition *)
+  unfold py_divmod1, py_divmod.
+  rewrite (fiszero_false fone fone_finite H1).
+  fold m0. fold s. fold d0.
+  assert (Fzf : ffinite fzero = true) by reflexivity.
+  assert (L1 : flt fone fzero = false).
+  { rewrite flt_spec by (try apply fone_finite; reflexivity). apply Rlt_bool_false. rewrite fone_R. simpl. lra. }
+  assert (L2 : flt m0 fzero = false).
+  { rewrite flt_spec by assumption. apply Rlt_bool_false. simpl. lra. }
+  rewrite L1, L2. simpl Bool.eqb. cbv iota.
+  assert (CS : fcopysign fzero fone = fzero).
+  { unfold fcopysign. rewrite fone_sign. reflexivity. }
+  rewrite CS.
+  (* the pair (m, d) *)
+  set (md := if negb (fiszero m0) then (m0, d0) else (fzero, d0)).
+  assert (MD : snd md = d0 /\ ffinite (fst md) = true /\ B2R (fst md) = B2R m0).
+  { unfold md. destruct (fiszero m0) eqn:Z0; simpl.
+    - split; [reflexivity|]. split; [reflexivity|].
+      symmetry. apply fiszero_spec; assumption.
+    - split; [reflexivity|]. split; [exact Fin|reflexivity]. }
+  destruct md as [m d]. simpl in MD. destruct MD as (Ed & Fm & Vm). subst d.
+  cbv zeta.
+  (* the quotient *)
+  destruct (fiszero d0) eqn:Zd.
+  - (* floor is zero *)
+    simpl negb. cbv iota. simpl fst. simpl snd.
+    assert (Zk : IZR k = 0) by (rewrite <- Vd; apply fiszero_spec; assumption).
+    destruct (fdiv_spec x fone Fx H1) as [Vq Fq].
+    { rewrite fone_R. unfold Rdiv. rewrite Rinv_1, Rmult_1_r, RN_B2R. apply B2R_lt_emax. }
+    split.
+    { unfold fcopysign. destruct (Bool.eqb (fsign fzero) (fsign (fdiv x fone))); reflexivity. }
+    split; [exact Fm|]. split.
+    { unfold fcopysign. destruct (Bool.eqb (fsign fzero) (fsign (fdiv x fone))); simpl; lra. }
+    lra.
+  - simpl negb. cbv iota. simpl fst. simpl snd.
+    destruct (ffloor_spec d0) as [Vf Ff]. rewrite Fd in Ff. rewrite Vd, Zfloor_IZR in Vf.
+    set (fl := ffloor d0) in *.
+    destruct (fsub_spec d0 fl Fd Ff) as [Vz Fz].
+    { rewrite Vd, Vf, Rminus_diag_eq, RN_0, Rabs_R0 by reflexivity. apply bpow_gt_0. }
+    rewrite Vd, Vf, Rminus_diag_eq, RN_0 in Vz by reflexivity.
+    assert (G : fgt (fsub d0 fl) (of_bits 4602678819172646912) = false).
+    { change (of_bits 4602678819172646912) with fhalf. unfold fgt.
+      rewrite flt_spec by (try exact fhalf_finite; exact Fz).
+      apply Rlt_bool_false. rewrite Vz, fhalf_R. lra. }
+    rewrite G.
+    split; [exact Ff|]. split; [exact Fm|]. split; [exact Vf|]. lra.
+Qed.
